@@ -135,6 +135,24 @@ def check_c07(tier, seed):
                                          "second_out", "mint_redeemer", "input_redeemer"], modes=["all"]))
         runs.append(dict(depth=1, slots=["out_amount", "since", "out_datum", "meta_value", "min_amount",
                                          "second_out"], modes=["free"]))
+    # design level: the reducer model is idempotent and meaning preserving for every subset of applied
+    # stages; with the pinned code's deviation (property index not a component) TLC must find a counterexample
+    rcfg = """CONSTANTS
+  Depth = 1
+  IndexIsComponent = {idx}
+  Slots = {{{slots}}}
+INIT Init
+NEXT Next
+INVARIANTS Idempotent MeaningPreserved ApplicationPreserves
+CHECK_DEADLOCK FALSE
+"""
+    rslots = ["since", "out_amount"] if quick else ["since", "until", "out_amount", "out_datum", "meta_value", "min_amount", "withdraw_amount", "second_out"]
+    rr = core.tlc_mc("MC_Reducer", rcfg.format(idx="TRUE", slots=q(rslots)), "c07_reducer", workers=4, timeout=1800)
+    rep.add_tlc(rr)
+    rep.extra["reducer_model_states"] = rr.distinct
+    rd = core.tlc_mc("MC_Reducer", rcfg.format(idx="FALSE", slots=q(["since"])), "c07_reducer_dev", workers=2, timeout=900,
+                     expect_violation=True)
+    rep.notes.append(f"deviation IndexIsComponent=FALSE: TLC finds a counterexample to {rd.violated} on the reducer model")
     groups_by = {}
     env = None
     for k, r in enumerate(runs):
